@@ -472,6 +472,53 @@ class Orchestration(Harness):
         yield 'all-closed-at-exit', obs['unclosed'] == 0
 
 
+class Fallback(Harness):
+    """real audit() against a peer whose every connection answers, independently and arbitrarily, with the plain-text line that triggers the SSH-1 retry,
+    with silence, or with an unexpected packet: at most one retry (two connections), and only when both protocol versions are enabled."""
+    prop, ob = PROP, 'O3'
+    width = 64
+    LINE = b'Protocol major versions differ.\n'
+
+    def __init__(self, ssh1, ssh2, n=4):
+        self.ssh1, self.ssh2, self.n = ssh1, ssh2, n
+        self.name = 'fallback-ssh1(%d)-ssh2(%d)-n%d' % (ssh1, ssh2, n)
+
+    def params(self):
+        return {'ssh1': self.ssh1, 'ssh2': self.ssh2, 'n': self.n}
+
+    def inputs(self):
+        return {'kind': [zx.fresh_int('k%d' % i, 0, 2) for i in range(self.n)]}
+
+    def run(self, M, inp):
+        if zx.active():
+            zx.cur().stdout = []
+        conns = []
+        for k in inp['kind']:
+            k = zx.cur().concretize(k.e) if zx.active() and not isinstance(k, int) else int(k)          # finite case split: three reply kinds per connection
+            if k == 0:
+                conns.append(AE.Conn([BANNER, self.LINE], 'close'))
+            elif k == 1:
+                conns.append(AE.Conn([BANNER], 'close'))
+            else:
+                conns.append(AE.Conn([BANNER, AE.frame(bytes([99]) + b'zz')], 'close'))
+        net = AE.FakeNet(conns)
+        r = AE.run_audit(M, [], net=net, ssh1=self.ssh1, ssh2=self.ssh2)
+        made = net.made
+        peak = 0
+        import gc
+        open_now = len([c for c in made if not (c.closed or c.shut)])
+        r['out'] = None
+        gc.collect()
+        return {'ret': r['ret'], 'nconn': len(made), 'open_at_return': open_now, 'unclosed': len([c for c in made if not (c.closed or c.shut)])}
+
+    def check(self, inp, obs):
+        yield 'documented-status', status_of(obs['ret']) is not None
+        both = self.ssh1 and self.ssh2
+        yield 'at-most-one-retry', obs['nconn'] <= (2 if both else 1)
+        yield 'retry-only-after-the-version-mismatch-line', s_implies(inp['kind'][0] != 0, obs['nconn'] == 1)
+        yield 'all-closed-at-exit', obs['unclosed'] == 0
+
+
 def tasks(tier):
     q = tier == 'quick'
     T = []
@@ -489,6 +536,8 @@ def tasks(tier):
         for client in (False, True):
             for policy in (False, True):
                 T.append(Orchestration(skip, client, policy))
+    for ssh1, ssh2 in ((True, True), (True, False), (False, True)):
+        T.append(Fallback(ssh1, ssh2, 3 if q else 5))
     return T
 
 
@@ -501,6 +550,8 @@ def harness_by_name(name, params):
         return HostKeyPhase(p['keytypes'])
     if k == 'gexphase':
         return GexPhase(p['algs'], p['openssh'])
+    if k == 'fallback':
+        return Fallback(p['ssh1'], p['ssh2'], p['n'])
     if k == 'orchestration':
         return Orchestration(p['skip'], p['client'], p['policy'])
     raise KeyError(name)
